@@ -10,7 +10,7 @@ variable {cfg : SrcCfg}
 /-- payload branch of `pesIter` as a function of the payload bytes -/
 def payloadRes (cb : Bool) (cfg : SrcCfg) (sk la : Nat) (fs : FS) (data : Bytes) :
     (Nat × Nat) × FS × List FrameOut × Option Stop :=
-  match pesPacketFrame 3 cb cfg.corSkipsEmpty { fs with frame := { fs.frame with nDu := 0 } } data with
+  match pesPacketFrame cfg 3 cb cfg.corSkipsEmpty { fs with frame := { fs.frame with nDu := 0 } } data with
   | (fs1, outs, .callback, _) => ((sk, la), fs1, outs, some .callback)
   | (fs1, outs, .fault e, _) => ((sk, la), fs1, outs, some (.fault e))
   | (fs1, outs, .err, _) => ((la, PES_HEADER_LOOKAHEAD), pesErrFs cfg fs1, outs, none)
@@ -21,15 +21,15 @@ theorem pesIter_payload (cb : Bool) (sk la : Nat) (fs : FS) (win : Bytes) (h1 : 
   unfold pesIter payloadRes
   simp only []
   rw [if_pos (by simpa [PES_HEADER_LOOKAHEAD] using h1), if_neg (by omega)]
-  generalize pesPacketFrame 3 cb _ _ _ = x
+  generalize pesPacketFrame cfg 3 cb _ _ _ = x
   obtain ⟨a, b, r, c⟩ := x
   cases r <;> rfl
 
 theorem payloadRes_ok (cfg : SrcCfg) (sk la : Nat) (fs : FS) (data : Bytes) (h : 2 ≤ data.length) :
     ∃ fs1 outs, payloadRes true cfg sk la fs data = ((la, 48), fs1, outs, none) := by
   unfold payloadRes
-  have hok := pesPacketFrame_ok cfg.corSkipsEmpty { fs with frame := { fs.frame with nDu := 0 } } data h
-  rcases hp : pesPacketFrame 3 true cfg.corSkipsEmpty { fs with frame := { fs.frame with nDu := 0 } } data with ⟨fs1, outs, r, rest⟩
+  have hok := pesPacketFrame_ok (cfg := cfg) cfg.corSkipsEmpty { fs with frame := { fs.frame with nDu := 0 } } data h
+  rcases hp : pesPacketFrame cfg 3 true cfg.corSkipsEmpty { fs with frame := { fs.frame with nDu := 0 } } data with ⟨fs1, outs, r, rest⟩
   rw [hp] at hok
   simp only at hok
   rcases hok with rfl | rfl
@@ -55,7 +55,7 @@ theorem pesIter_arun (L win : Bytes) (fs : FS) (sk la : Nat) (hpre : win <+: L)
     · obtain ⟨fs1', outs', hr'⟩ := payloadRes_ok cfg 0 la fs (win.take la) (by omega)
       have hsame : fs1' = fs1 ∧ outs' = outs := by
         unfold payloadRes at hr hr'
-        rcases hpp : pesPacketFrame 3 true cfg.corSkipsEmpty { fs with frame := { fs.frame with nDu := 0 } } (win.take la)
+        rcases hpp : pesPacketFrame cfg 3 true cfg.corSkipsEmpty { fs with frame := { fs.frame with nDu := 0 } } (win.take la)
           with ⟨a, b, r, c⟩
         rw [hpp] at hr hr'
         cases r <;> simp_all
